@@ -274,6 +274,17 @@ PAYLOAD = st.one_of(st.integers(-2, 2), st.sampled_from(["a", "b", None]), st.li
 
 @st.composite
 def pq_case(draw):
+    if draw(st.integers(0, 2)) == 0:
+        # "heavy" histories: many pending items (a heap of some depth) with a few infinite priorities pushed late, then a drain
+        n = draw(st.integers(8, 40))
+        ops = []
+        for _ in range(n):
+            r = draw(st.integers(0, 9))
+            w = float("-inf") if r == 0 else float("inf") if r == 1 else float(draw(st.integers(0, 12)))
+            ops.append(["push", draw(st.integers(0, 3)), w])
+            if draw(st.integers(0, 5)) == 0:
+                ops.append(["pop"])
+        return {"ops": ops, "payload_mode": draw(st.sampled_from(["unique", "plain"]))}
     ops = draw(st.lists(st.one_of(
         st.tuples(st.just("push"), PAYLOAD, PRIOS).map(list),
         st.tuples(st.just("push"), PAYLOAD, st.integers(0, 2).map(float)).map(list),
